@@ -1,22 +1,29 @@
 //! API-group monitors. One module per property; `dbutil` is shared plumbing.
 //!   C37 -> c37.rs   coins-to-spend answers are sound
 //!   C38 -> c38.rs (+ c38_e2e.rs)   cursor pagination enumerates every entry exactly once
-//! (C36 and C45 are added as further modules; register them in the `match` below.)
+//!   C36 -> c36.rs   off-chain indexes agree with the on-chain state
+//!   C45 -> c45.rs   dry runs and read-only queries leave the chain state unchanged
+//! (`sessutil` is the shared plumbing of the two chaingen-based modules.)
 
 use vcommon::*;
 
+mod c36;
 mod c37;
 mod c38;
 mod c38_e2e;
+mod c45;
 pub mod dbutil;
+mod sessutil;
 
 fn main() {
     let args = Args::parse();
     install_quiet_panic_hook();
     let report = Report::new(&args.property);
     let (rule, exhaustive, assumptions): (&str, bool, Vec<&str>) = match args.property.as_str() {
+        "C36" => c36::run(&args, &report),
         "C37" => c37::run(&args, &report),
         "C38" => c38::run(&args, &report),
+        "C45" => c45::run(&args, &report),
         other => {
             report.inconclusive(format!("property {other} not implemented in this monitor"));
             ("", false, vec![])
